@@ -167,3 +167,28 @@ M('C05', 'tf-adafactor-no-signflip', GR, "  tx.append(optax.scale(-1))", "  tx.a
 M('C05', 'tf-mask-rank-lt', GR, "    if options.skip_preconditioning_rank1 and x.ndim <= 1:", "    if options.skip_preconditioning_rank1 and x.ndim < 1:")
 M('C05', 'tf-mask-all-dims', GR, "    if any(s > options.skip_preconditioning_any_dim_gt for s in x.shape):", "    if all(s > options.skip_preconditioning_any_dim_gt for s in x.shape):")
 TW('C05', 'twin-tf-multiplier-renamed', GR, "      base_norm = jnp.linalg.norm(base)\n      multiplier = jnp.where(\n          base_norm > 0.0, jnp.linalg.norm(graft_upd) / base_norm, 0.0\n      )", "      nb = jnp.linalg.norm(base)\n      ng = jnp.linalg.norm(graft_upd)\n      multiplier = jnp.where(0.0 < nb, ng / nb, 0.0)")
+
+# ------------------------------------------------------------------ C06
+M('C06', 'merge-not-reversed', DS, "    for (i, indices) in reversed(self._splits):", "    for (i, indices) in self._splits:")
+M('C06', 'merge-group-off-by-one', DS, "      n = len(indices) + 1\n", "      n = len(indices)\n")
+M('C06', 'merge-axis-shift', DS, "            jnp.concatenate(partitions[ind:ind + n], axis=i))", "            jnp.concatenate(partitions[ind:ind + n], axis=i + 1))")
+M('C06', 'partition-axis-zero', DS, "        tensors_local.extend(jnp.split(t, indices_or_sections=indices, axis=i))", "        tensors_local.extend(jnp.split(t, indices_or_sections=indices, axis=0))")
+M('C06', 'nsplit-exact-multiple', DS, "        nsplit = (d - 1) // block_size", "        nsplit = d // block_size")
+M('C06', 'split-guard-le', DS, "      if 0 < block_size < d:", "      if 0 < block_size <= d:")
+M(['C06', 'C07'], 'F4-preconds-no-rank-case', DS, "    if self._preconditioner_type == PreconditionerType.ALL or rank <= 1:\n      # Preconditioner type is ignored for rank <= 1 (see\n      # should_precondition_dims), every dim has a preconditioner.\n      pass\n    elif self._preconditioner_type == PreconditionerType.INPUT:", "    if self._preconditioner_type == PreconditionerType.INPUT:")
+M('C06', 'shapes-input-takes-last', DS, "        preconditioner_shapes.extend(map(self._preconditioner_shape, t[:-1]))", "        preconditioner_shapes.extend(map(self._preconditioner_shape, t[1:]))")
+M('C06', 'dims-output-first', DS, "      return [False] * (rank - 1) + [True]", "      return [True] + [False] * (rank - 1)")
+M('C06', 'slot-start-rank', DS, "          start=i * num_preconditioners,", "          start=i * len(should_preconditioned_dims),")
+M('C06', 'reshape-out-transformed', DS, "    return jnp.reshape(merged_grad, self._original_shape)", "    return jnp.reshape(merged_grad, self._transformed_shape).reshape(self._original_shape[::-1]).T if False else jnp.reshape(merged_grad.T, self._original_shape)")
+M('C06', 'merge-limit-doubled', DS, "    if product * d <= max_dim:", "    if product * d <= max_dim * 2:")
+M('C06', 'deblockify-insert-index', TS, "  r_blocked_axis_ix = meta.large_axes[1] + 1", "  r_blocked_axis_ix = meta.blocks_axis + 2")
+M('C06', 'blockify-perm-insert', TS, "  perm.insert(l_blocks_ix + 1, r_blocks_ix)", "  perm.insert(l_blocks_ix, r_blocks_ix)")
+M('C06', 'blockify-one-axis-order', TS, "    new_shape = before + [meta.num_blocks, meta.large_block_size] + after", "    new_shape = before + [meta.large_block_size, meta.num_blocks] + after")
+M(['C06', 'C07'], 'large-dims-guard-strict', TS, "    if sum(dim >= options.block_size for dim in param.shape) > 2:", "    if sum(dim > options.block_size for dim in param.shape) > 2:")
+M('C06', 'metadata-large-strict', TS, "  large_axes = [i for i, d in enumerate(param_shape) if d >= options.block_size]", "  large_axes = [i for i, d in enumerate(param_shape) if d > options.block_size]")
+M('C06', 'reshaper-pad-rounds-down', RS, "        s = (s + options.block_size - 1) // options.block_size", "        s = (s + options.block_size) // options.block_size")
+M('C06', 'reshaper-pad-front', RS, "        (0, p - m) for p, m in zip(shapes.padded_shape, shapes.merged_shape)", "        (p - m, 0) for p, m in zip(shapes.padded_shape, shapes.merged_shape)")
+M('C06', 'reshaper-unmerge-slice-padded', RS, "      merged = update[tuple(slice(0, m) for m in shapes.merged_shape)]", "      merged = update[tuple(slice(0, m) for m in shapes.padded_shape)]")
+M('C06', 'init-no-indivisible-check', TS, "        dim % options.block_size != 0\n        for dim in param.shape\n        if dim >= options.block_size", "        dim % options.block_size != 0\n        for dim in param.shape\n        if dim >= options.block_size and False")
+TW('C06', 'twin-merge-reversed-list', DS, "    for (i, indices) in reversed(self._splits):", "    for (i, indices) in reversed(list(self._splits)):")
+TW('C06', 'twin-large-lt-negated', TS, "  dims = [min(dim, options.block_size) for dim in param_shape]", "  dims = [dim if dim < options.block_size else options.block_size for dim in param_shape]")
